@@ -57,12 +57,23 @@ def explore(ctx, rep, pid, n, extra_texts=()):
         c['id'] = 't%d' % i
         cases.append(c)
     lines = []
+    lr_lines = []
     for c in cases:
         h = hexf(c['text'])
         lines.append('cfgast a%s %s' % (c['id'], h))
         lines.append('cfglex l%s %s' % (c['id'], h))
+        lr_lines.append('cfgastlr a%s %s' % (c['id'], h))
     impl, model = ctx.run_pair(lines, timeout_ms=10000)
-    n_mm = n_or = n_tot = 0
+    # the same texts through the LALR tables and actions translated from the config parser.tab.cc (model side only)
+    import subprocess
+    lr = {}
+    if os.path.exists(ctx.driver()):
+        p = subprocess.run([ctx.driver()], input=('\n'.join(lr_lines) + '\n').encode(), stdout=subprocess.PIPE, stderr=subprocess.DEVNULL)
+        for ln in p.stdout.decode('latin-1').split('\n'):
+            if ln:
+                k, _, v = ln.partition(' ')
+                lr[k] = v
+    n_mm = n_or = n_tot = n_tab = 0
     accepted = 0
     for c in cases:
         ia, il = impl.get('a' + c['id']), impl.get('l' + c['id'])
@@ -89,6 +100,13 @@ def explore(ctx, rep, pid, n, extra_texts=()):
                 rep.violation('oracle', {'property': pid, 'kind': 'config-text-denotes-another-tree', 'seed': ctx.seed, 'text': c['text'],
                                          'expected': c['expected'], 'implementation': ia[:2000], 'line': 'cfgast x %s' % hexf(c['text'])})
             continue
+        if lr and lr.get('a' + c['id']) != ma:
+            n_tab += 1
+            if n_tab <= 3:
+                rep.violation('correspondence', {'property': pid, 'kind': 'translated-LALR-tables-vs-hand-written-config-parser-model', 'seed': ctx.seed,
+                                                 'text': c['text'], 'tables': (lr.get('a' + c['id']) or '')[:2000], 'model': (ma or '')[:2000],
+                                                 'implementation': (ia or '')[:2000], 'line': 'cfgast x %s' % hexf(c['text'])})
+            continue
         if ia != ma or il != ml:
             n_mm += 1
             if n_mm <= 3:
@@ -97,5 +115,5 @@ def explore(ctx, rep, pid, n, extra_texts=()):
                                                  'model': {'ast': (ma or '')[:2000], 'tokens': (ml or '')[:2000]},
                                                  'line': 'cfgast x %s' % hexf(c['text'])})
     return {'config_texts': len(cases), 'config_texts_accepted': accepted, 'config_text_kinds': dict(g.stats),
-            'config_text_model_mismatches': n_mm, 'config_text_oracle_failures': n_or, 'config_text_not_total': n_tot,
+            'config_text_model_mismatches': n_mm, 'config_text_table_driver_mismatches': n_tab, 'config_text_oracle_failures': n_or, 'config_text_not_total': n_tot,
             'config_text_rule': 'token stream (kind, line, column, offset, length) and parse tree of the config tokenizer and Bison grammar of the current tree against SqfModel/CfgText.lean on fragment soups, laid-out well-formed texts (tree known by construction), one-edit mutants of those and nesting around the 2000-brace limit'}
